@@ -304,12 +304,26 @@ func main() {
 			stats["d52_observed"]++
 		}
 		_ = lines
-		// closing A must not disturb B
-		ea.Close()
+		// closing A must not disturb B, and must not wait for B's clients either
+		closed := make(chan struct{})
+		go func() { ea.Close(); close(closed) }()
+		select {
+		case <-closed:
+		case <-time.After(5 * time.Second):
+			fail(-1, []string{"two emulators in one process, one idle client on each", "close the first"},
+				"Close() of one emulator did not return within 5 s while an idle client is connected to the other emulator")
+		}
 		if line, err := b.roundtrip(time.Second, "PING"); err != nil || line != "+PONG\r\n" {
 			fail(-1, []string{"two emulators in one process", "close the first"}, fmt.Sprintf("closing one emulator disturbed a client of the other: %q %v", line, err))
 		}
-		eb.Close()
+		b.c.Close()
+		closedB := make(chan struct{})
+		go func() { eb.Close(); close(closedB) }()
+		select {
+		case <-closedB:
+		case <-time.After(5 * time.Second):
+			fail(-1, []string{"two emulators in one process", "close the second"}, "Close() of the second emulator did not return within 5 s")
+		}
 		stats["two_instance_checks"]++
 	}
 	res := map[string]any{"stats": stats, "samples": samples, "failures": failures, "wall_s": time.Since(start).Seconds()}
